@@ -4,17 +4,19 @@
 (* chains and cycles included) and a view kind.                               *)
 EXTENDS IntsDiagram, Randomization, Json
 VARIABLE emitted
-GenInit == /\ calls = {} /\ listed = {} /\ excl = {} /\ pass = {} /\ final = {} /\ arrows = {}
+GenInit == /\ calls = {} /\ listed = {} /\ excl = {} /\ pass = {} /\ human = {} /\ hid = {} /\ final = {} /\ arrows = {}
            /\ todo = {} /\ walked = {} /\ phase = "setup" /\ emitted = FALSE
 Setup == /\ phase = "setup"
          /\ calls' = RandomSubset(RandomElement(1..10), Apps \X Apps)
          /\ listed' = RandomSubset(RandomElement(1..3), Apps)
          /\ excl' = RandomSubset(RandomElement(0..2), Apps) \ listed'
          /\ pass' = RandomSubset(RandomElement(0..3), Apps)
-         /\ final' = listed' /\ phase' = "direct"
+         /\ human' = RandomSubset(RandomElement(0..1), Apps)
+         /\ hid' = RandomSubset(RandomElement(0..1), Apps)
+         /\ final' = listed' \ human' /\ phase' = "direct"
          /\ UNCHANGED <<arrows, todo, walked, emitted>>
 Emit == /\ phase = "done" /\ ~emitted /\ emitted' = TRUE
-        /\ PrintT(<<"SCN", ToJson([calls |-> calls, listed |-> listed, excl |-> excl, pass |-> pass,
+        /\ PrintT(<<"SCN", ToJson([calls |-> calls, listed |-> listed, excl |-> excl, pass |-> pass, human |-> human, hid |-> hid,
                                    view |-> RandomElement({"plain", "clustered", "epa"}), expect |-> arrows,
                                    \* a second view of the same project, generated in the same run
                                    listed2 |-> RandomSubset(RandomElement(1..2), Apps),
